@@ -62,6 +62,9 @@ type Plan struct {
 	K      Knobs    `json:"knobs"`
 	Phases []Phase  `json:"phases"`
 	Tape   []uint16 `json:"tape,omitempty"`
+	// OrphanOK: operations may build on orphan-linked layers (fork children of a
+	// flattened layer); otherwise they are only read.
+	OrphanOK bool `json:"orphan_ok,omitempty"`
 	// crash enumeration (C20)
 	CutSeed  uint64 `json:"cut_seed,omitempty"`
 	MaxCuts  int    `json:"max_cuts,omitempty"`
